@@ -17,6 +17,7 @@ import OapiVerif.Model.Combine
 import OapiVerif.Model.IntParse
 import OapiVerif.Model.DateParse
 import OapiVerif.Model.UuidParse
+import OapiVerif.Model.SchemaOrder
 /-!
 Line-protocol driver: one JSON object per line in, one per line out.
 `{"fn": <name>, ...}` ↦ `{"ok": <result>}` or `{"err": "bad-op"}` (never a default).
@@ -360,6 +361,17 @@ def combineParamsD (j : Json) : Except String Json := do
     | .ok r => Json.mkObj [("ok", Json.arr (r.map fun d => Json.num d.tag).toArray)]
     | .error e => Json.mkObj [("error", e)])
 
+/-- `SortedSchemaKeys`: entries as {"k": [bytes…], "o": integer or null}; result = the keys in order. -/
+def schemaKeysD (j : Json) : Except String Json := do
+  let es ← (← j.getObjVal? "entries").getArr?
+  let entries ← es.toList.mapM fun e => do
+    let k ← e.getObjValAs? (Array Nat) "k"
+    let o : Option Int := match e.getObjVal? "o" with
+      | .ok (.num n) => if n.exponent == 0 then some n.mantissa else none
+      | _ => none
+    pure (SchemaOrder.Entry.mk k.toList o)
+  pure (Json.arr ((SchemaOrder.sortedSchemaKeys entries).map fun k => Json.arr (k.map fun (c : Nat) => Json.num (JsonNumber.fromNat c)).toArray).toArray)
+
 /-- integer parameters: text -> value for a destination of `bits` bits, and the decimal rendering of a value -/
 def parseIntD (j : Json) : Except String Json := do
   let s ← getHex j "s"
@@ -554,6 +566,7 @@ def dispatch (fn : String) (j : Json) : Except String Json :=
   | "enumNames" => enumNamesD j
   | "enumFlags" => enumFlagsD j
   | "combineParams" => combineParamsD j
+  | "schemaKeys" => schemaKeysD j
   | "parseInt" => parseIntD j
   | "parseDate" => parseDateD j
   | "parseUuid" => parseUuidD j
